@@ -5,7 +5,7 @@ import FastorModel.Model.Transpose
 namespace Fastor.Driver
 open Fastor
 
-def parseNats (s : String) : List Nat := (s.splitOn ",").filterMap String.toNat?
+private def parseNats (s : String) : List Nat := (s.splitOn ",").filterMap String.toNat?
 
 def showNats (l : List Nat) : String := ",".intercalate (l.map toString)
 
